@@ -228,3 +228,6 @@ def replay(ob, reg):
     if c is None:
         return {'reproduced': False, 'replay': 'no factory for %s' % ob.func}
     return R.run_case(R.case_from_obl(ob, c, 'wsframe'))
+
+
+CROSSCHECK = ['WebsocketFrame.apply_mask', 'WebsocketFrame.build', 'WebsocketFrame.reset']
